@@ -473,7 +473,11 @@ fn owned(prof: &Profile, v: &Violation, w: &World) -> bool {
     }
     // C03 also covers "the next accepted message receives the next offset; no restart lets an offset be used twice":
     // offset-assignment clauses that fire after a restart count for it as well.
-    prof.owner == "C03" && w.restarts > 0 && key.starts_with("C01:")
+    if prof.owner == "C03" && w.restarts > 0 && key.starts_with("C01:") {
+        return true;
+    }
+    // C18: a dropped duplicate is "dropped without consuming an offset": with deduplication on, offset-assignment clauses count for it
+    prof.owner == "C18" && w.cfg.dedup && key.starts_with("C01:")
 }
 
 pub async fn run(ctx: &Ctx, rep: &mut ShardReport) {
